@@ -52,37 +52,14 @@ class Item:
 
 
 # ---------------------------------------------------------------------------------------------- reach probes
-_PROBE = {"depth": 0, "maxdepth": 0, "links": 0, "cuts": 0}
+_PROBE = {}
 
 
 def _install_probes():
     H = fibonacci.FibonacciHeap
-    if getattr(H, "_gsim_probed", False):
-        return
-    H._gsim_probed = True
-    cc = getattr(H, "_cascading_cut", None)
-    if cc is not None:
-        def _cascading_cut(self, y, _orig=cc):
-            _PROBE["depth"] += 1
-            if _PROBE["depth"] > _PROBE["maxdepth"]:
-                _PROBE["maxdepth"] = _PROBE["depth"]
-            try:
-                return _orig(self, y)
-            finally:
-                _PROBE["depth"] -= 1
-        H._cascading_cut = _cascading_cut
-    lk = getattr(H, "_link", None)
-    if lk is not None:
-        def _link(self, y, x, _orig=lk):
-            _PROBE["links"] += 1
-            return _orig(self, y, x)
-        H._link = _link
-    ct = getattr(H, "_cut", None)
-    if ct is not None:
-        def _cut(self, x, y, _orig=ct):
-            _PROBE["cuts"] += 1
-            return _orig(self, x, y)
-        H._cut = _cut
+    core.count_calls(H, "_cascading_cut", _PROBE, "cascading", depth_key="maxdepth")
+    core.count_calls(H, "_link", _PROBE, "links")
+    core.count_calls(H, "_cut", _PROBE, "cuts")
 
 
 _install_probes()
@@ -207,9 +184,7 @@ class C16:
         popped = False
         nontrivial = False
         last_dec = False
-        _PROBE["maxdepth"] = 0
-        _PROBE["links"] = 0
-        _PROBE["cuts"] = 0
+        _PROBE.clear()
 
         def best():
             ks = [v[1] for v in live.values()]
@@ -347,11 +322,11 @@ class C16:
             log.add("EXC", site)
             return result(violation={"kind": "exception", "site": f"{case['heap']}/{site}",
                                      "detail": core.short_tb(e)}, digest=log.digest(), trace=log.tail[-60:])
-        if _PROBE["maxdepth"] >= 2:
+        if _PROBE.get("maxdepth", 0) >= 2:
             counters["probe.cascading_cut_depth_ge2"] = 1
-        if _PROBE["links"]:
+        if _PROBE.get("links"):
             counters["probe.link"] = _PROBE["links"]
-        if _PROBE["cuts"]:
+        if _PROBE.get("cuts"):
             counters["probe.cut"] = _PROBE["cuts"]
         counters["mode." + case["mode"]] = 1
         nt = core.h64(case["heap"], case["keyfn"], case["ops"]) if nontrivial else None
